@@ -23,7 +23,7 @@ from pyvc.pyops import PyExc
 from pyvc.runner import H, Unit, base_registry, register, set_registry_factory
 from pyvc.theories import misc, pybuiltins as pb
 from pyvc.theories.store import Store, under
-from pyvc.values import (ClassVal, PDict, PList, PSet, SBool, SBytes, SExc, SInt, SObj, SOpt, SSetZ, SStr, SXReal,
+from pyvc.values import (ClassVal, PDict, PList, PSet, SBool, SBytes, SExc, SInt, SMapZ, SObj, SOpt, SSetZ, SStr, SXReal,
                          TheoryObj, to_z3)
 
 GC = "garbage_collector"
@@ -414,42 +414,51 @@ def h_load_inflight(faults: bool):
                 raise PyRaise(SExc("GarbageCollectionAborted", origin="_marker_target: marker unreadable", fields={"fault": True}))
             return pyops.mk_str(TARGET(pyops.str_z(mp)))
         h.reg.contracts[f"{GC}:GarbageCollector._marker_target"] = marker_target
-        g = {"w_seen": z3.BoolVal(False), "w_swept": z3.BoolVal(False)}
-        prot = {"z": None}
+        g = {"w_seen": z3.BoolVal(False)}
+        kw = z3.String("witness_abandoned_key")
+        h.report("witness_abandoned_key", kw)
 
         def cutoff():
             reads = c.ghost["clock"]["reads"]
             return reads[0] * 1000 - z3.ToReal(timeout.z)
 
-        def protected_of(env):
-            ok, p = env.lookup("protected")
+        def var(env, nm):
+            ok, p = env.lookup(nm)
             return p
 
+        def handed_over(ab, key, target=None):
+            """key is in the abandoned map (with the given target)"""
+            if isinstance(ab, SMapZ):
+                e = z3.Select(ab.has, key)
+                return z3.And(e, z3.Select(ab.val, key) == target) if target is not None else e
+            return z3.BoolVal(False)    # the literal {} before the first iteration
+
         def inv(I, env, it):
-            p = protected_of(env)
+            p, ab = var(env, "protected"), var(env, "abandoned")
             res = []
             if it.get("after_body"):
                 e = pyops.str_z(it["elem"])
                 g["w_seen"] = z3.Or(g["w_seen"], e == wz)
-                swept_now = any(ev["op"] == "delete_file" and ev.get("iter") == id(it) for ev in st.events)
-            if isinstance(p, SSetZ):
-                fresh = z3.Select(mt0, wz) * 1000 >= cutoff()
-                res.append(("MARKER-KEEP:seen-fresh-marker's-target-is-protected",
-                            z3.Implies(z3.And(g["w_seen"], z3.Or(fresh, z3.Not(g["w_swept"]))), z3.IsMember(TARGET(wz), p.z))))
+            fresh = z3.Select(mt0, wz) * 1000 >= cutoff()
+            inp = z3.IsMember(TARGET(wz), p.z) if isinstance(p, SSetZ) else z3.BoolVal(False)
+            res.append(("MARKER-KEEP:seen-fresh-marker's-target-is-protected", z3.Implies(z3.And(g["w_seen"], fresh), inp)))
+            res.append(("MARKER-KEEP:a-marker-handed-to-the-sweep-carries-its-own-target",
+                        z3.Implies(handed_over(ab, wz), handed_over(ab, wz, TARGET(wz)))))
+            res.append(("MARKER-KEEP:only-stale-markers-are-handed-to-the-sweep",
+                        z3.Implies(handed_over(ab, kw), z3.And(z3.Select(mt0, kw) * 1000 < cutoff(),
+                                                               z3.PrefixOf(z3.StringVal("metadata/inflight/"), kw)))))
             return res
 
         def on_event(ev):
             if ev["op"] == "delete_file":
-                # only abandoned markers may be swept
-                h.ensure("MARKER-KEEP:only-stale-markers-are-swept", z3.Select(mt0, ev["path"]) * 1000 < cutoff())
-                h.ensure("MARKER-KEEP:only-markers-are-touched", z3.PrefixOf(z3.StringVal("metadata/inflight/"), ev["path"]))
-                g["w_swept"] = z3.Or(g["w_swept"], ev["path"] == wz)
+                h.fail("MARKER-KEEP:observing-the-markers-deletes-nothing")
         st.on_event = on_event
 
         def havoc(I, env, it):
             g["w_seen"] = I.ctx.fresh_bool("w_seen")
-            g["w_swept"] = I.ctx.fresh_bool("w_swept")
             env.vars["protected"] = SSetZ("str", I.ctx.fresh("protected", z3.SetSort(STR)))
+            env.vars["abandoned"] = SMapZ("str", "str", I.ctx.fresh("abandoned_has", z3.ArraySort(STR, z3.BoolSort())),
+                                          I.ctx.fresh("abandoned_val", z3.ArraySort(STR, STR)))
 
         orig_list = st.a_list_files
 
@@ -469,7 +478,7 @@ def h_load_inflight(faults: bool):
         h.reg.theory_methods[("storage", "list_files")] = list_files
         h.reg.loops[f"{GC}:GarbageCollector._load_inflight_protection"] = {
             "*": LoopSpec(invariant=inv, havoc=havoc, name="markers",
-                          skip=["protected", "norm_marker", "age_ok", "basename", "data_rel", "marker_path"])}
+                          skip=["protected", "abandoned", "norm_marker", "age_ok", "basename", "data_rel", "marker_path"])}
         out, val = h.run(f"{GC}:GarbageCollector._load_inflight_protection", [gc, timeout])
         listed_w = z3.Select(ex0, wz)
         listing_fault = any(e["op"] == "FAULT" and e["at"] == "list_files" for e in st.events)
@@ -482,14 +491,70 @@ def h_load_inflight(faults: bool):
                      classes=[("marker-listing-fault-drops-all-protection", z3.BoolVal(True))])
             return
         h.assume(z3.Implies(listed_w, g["w_seen"]), "rule ALL-VISITED")
-        if isinstance(val, SSetZ):
-            fresh = z3.Select(mt0, wz) * 1000 >= cutoff()
-            h.ensure("MARKER-KEEP:every-fresh-listed-marker's-target-is-in-the-result",
-                     z3.Implies(z3.And(listed_w, fresh), z3.IsMember(TARGET(wz), val.z)))
-            h.ensure("MARKER-KEEP:an-unswept-marker-keeps-protecting",
-                     z3.Implies(z3.And(listed_w, z3.Not(g["w_swept"])), z3.IsMember(TARGET(wz), val.z)))
-        else:
-            h.ensure("MARKER-KEEP:empty-result-only-without-markers", z3.Not(listed_w))
+        if not (isinstance(val, tuple) and len(val) == 2):
+            h.fail("MARKER-KEEP:returns-(protected,abandoned)")
+            return
+        pr, ab = val
+        fresh = z3.Select(mt0, wz) * 1000 >= cutoff()
+        inp = z3.IsMember(TARGET(wz), pr.z) if isinstance(pr, SSetZ) else z3.BoolVal(False)
+        h.ensure("MARKER-KEEP:every-fresh-listed-marker's-target-is-in-the-result", z3.Implies(z3.And(listed_w, fresh), inp))
+        h.ensure("MARKER-KEEP:a-marker-handed-to-the-sweep-carries-its-own-target",
+                 z3.Implies(handed_over(ab, wz), handed_over(ab, wz, TARGET(wz))))
+        h.ensure("MARKER-KEEP:only-stale-markers-are-handed-to-the-sweep",
+                 z3.Implies(handed_over(ab, kw), z3.And(z3.Select(mt0, kw) * 1000 < cutoff(),
+                                                        z3.PrefixOf(z3.StringVal("metadata/inflight/"), kw))))
+    return harness
+
+
+def h_sweep(faults: bool):
+    """GarbageCollector._sweep_abandoned_markers(abandoned, timeout): deletes only keys of `abandoned`; a marker that was not
+    removed keeps its target in the returned set."""
+    def harness(h: H):
+        c = h.ctx
+        st = Store(h, fault_classes=["OSError", "OtherException"] if faults else [], max_faults=1, fault_ops=["delete_file"])
+        st.install(h.reg)
+        gc = gc_object(h, st)
+        timeout = h.int("inflight_timeout_ms")
+        ab = SMapZ("str", "str", c.fresh("abandoned_has", z3.ArraySort(STR, z3.BoolSort())), c.fresh("abandoned_val", z3.ArraySort(STR, STR)))
+        has0, val0 = ab.has, ab.val
+        # precondition (= postcondition of _load_inflight_protection): keys are normalised marker paths
+        ab.key_assume = lambda k: z3.PrefixOf(z3.StringVal("metadata/inflight/"), k)
+        wz = z3.String("witness_abandoned_marker")
+        h.assume(z3.PrefixOf(z3.StringVal("metadata/inflight/"), wz))
+        h.report("witness_abandoned_marker", wz)
+        ex0 = st.ex
+        g = {"w_seen": z3.BoolVal(False), "w_removed": z3.BoolVal(False)}
+
+        def on_event(ev):
+            if ev["op"] == "delete_file":
+                h.ensure("MARKER-KEEP:only-markers-handed-over-as-abandoned-are-deleted", z3.Select(has0, ev["path"]))
+        st.on_event = on_event
+
+        def inv(I, env, it):
+            ok, sp = env.lookup("still_protected")
+            if it.get("after_body"):
+                k = pyops.str_z(it["elem"][0])
+                g["w_seen"] = z3.Or(g["w_seen"], k == wz)
+            gone = z3.And(z3.Select(ex0, wz), z3.Not(z3.Select(st.ex, wz)))
+            kept = z3.IsMember(z3.Select(val0, wz), sp.z) if isinstance(sp, SSetZ) else z3.BoolVal(False)
+            return [("MARKER-KEEP:a-visited-marker-is-removed-or-keeps-protecting",
+                     z3.Implies(z3.And(g["w_seen"], z3.Select(ex0, wz)), z3.Or(gone, kept)))]
+
+        def havoc(I, env, it):
+            g["w_seen"] = I.ctx.fresh_bool("w_seen")
+            env.vars["still_protected"] = SSetZ("str", I.ctx.fresh("still_protected", z3.SetSort(STR)))
+            st.ex = I.ctx.fresh("ex_in_loop", st.ex.sort())   # earlier iterations deleted some markers (only wz is tracked)
+        h.reg.loops[f"{GC}:GarbageCollector._sweep_abandoned_markers"] = {
+            "*": LoopSpec(invariant=inv, havoc=havoc, name="abandoned", skip=["still_protected", "norm_marker", "data_rel"])}
+        out, val = h.run(f"{GC}:GarbageCollector._sweep_abandoned_markers", [gc, ab, timeout])
+        if out == "raise":
+            h.fail("MARKER-KEEP:sweep-never-raises(a-failing-delete-keeps-the-protection)", detail=repr(val))
+            return
+        h.assume(z3.Implies(z3.Select(has0, wz), g["w_seen"]), "rule ALL-VISITED")
+        gone = z3.And(z3.Select(ex0, wz), z3.Not(z3.Select(st.ex, wz)))
+        kept = z3.IsMember(z3.Select(val0, wz), val.z) if isinstance(val, SSetZ) else z3.BoolVal(False)
+        h.ensure("MARKER-KEEP:an-unswept-marker-keeps-protecting",
+                 z3.Implies(z3.And(z3.Select(has0, wz), z3.Select(ex0, wz)), z3.Or(gone, kept)))
     return harness
 
 
@@ -543,6 +608,8 @@ register(Unit("C05", "MARKERS/_marker_target", h_marker_target(False), functions
 register(Unit("C05", "MARKERS/_load_inflight_protection", h_load_inflight(False), functions=[f"{GC}:GarbageCollector._load_inflight_protection"], replay=_replay_markers))
 register(Unit("C07", "MARKERS/_marker_target-faults", h_marker_target(True), functions=[f"{GC}:GarbageCollector._marker_target"], replay=_replay_markers))
 register(Unit("C07", "MARKERS/_load_inflight_protection-faults", h_load_inflight(True), functions=[f"{GC}:GarbageCollector._load_inflight_protection"], replay=_replay_markers))
+register(Unit("C05", "MARKERS/_sweep_abandoned_markers", h_sweep(False), functions=[f"{GC}:GarbageCollector._sweep_abandoned_markers"], replay=_replay_markers))
+register(Unit("C07", "MARKERS/_sweep_abandoned_markers-faults", h_sweep(True), functions=[f"{GC}:GarbageCollector._sweep_abandoned_markers"], replay=_replay_markers))
 
 
 # =================================================================================== collect
@@ -564,9 +631,10 @@ def h_collect(faults: bool):
         h.assume(z3.Length(mp_w) > 0)
         g = {"phase": "reach", "fault_in_iteration": False, "s_seen": z3.BoolVal(False), "m_seen": z3.BoolVal(False),
              "f_seen": z3.BoolVal(False), "cur_is_w": False, "set2_0": None, "set3_0": None, "gc_calls": [], "prot": None,
-             "prot_calls": 0, "reach_fault": False}
+             "prot_calls": 0, "reach_fault": False, "sweep_calls": 0, "order": [], "still": None, "prot_fault": False}
 
         def refresh(I, fv, args, kwargs):
+            g["order"].append("refresh")
             if faults and I.ctx.flip("refresh-fault"):
                 g["reach_fault"] = True
                 raise PyRaise(SExc("OSError", origin="fault:refresh", fields={"fault": True}))
@@ -621,12 +689,24 @@ def h_collect(faults: bool):
 
         def load_prot(I, fv, args, kwargs):
             g["prot_calls"] += 1
-            g["phase"] = "protect"
+            g["order"].append("markers")
             if faults and I.ctx.flip("protection-aborts"):
+                g["prot_fault"] = True
                 raise PyRaise(SExc("GarbageCollectionAborted", origin="fault:_load_inflight_protection", fields={"fault": True}))
             g["prot"] = I.ctx.fresh("protected", z3.SetSort(STR))
-            return SSetZ("str", g["prot"])
+            g["abandoned"] = SMapZ("str", "str", I.ctx.fresh("abandoned_has", z3.ArraySort(STR, z3.BoolSort())),
+                                   I.ctx.fresh("abandoned_val", z3.ArraySort(STR, STR)))
+            return (SSetZ("str", g["prot"]), g["abandoned"])
         h.reg.contracts[f"{GC}:GarbageCollector._load_inflight_protection"] = load_prot
+
+        def sweep(I, fv, args, kwargs):
+            g["sweep_calls"] += 1
+            g["order"].append("sweep")
+            g["phase"] = "protect"
+            g["sweep_arg_ok"] = args[1] is g.get("abandoned")
+            g["still"] = I.ctx.fresh("still_protected", z3.SetSort(STR))
+            return SSetZ("str", g["still"])
+        h.reg.contracts[f"{GC}:GarbageCollector._sweep_abandoned_markers"] = sweep
 
         def gc_prefix(I, fv, args, kwargs):
             _self, prefix, rset, gr = args
@@ -751,16 +831,26 @@ def h_collect(faults: bool):
             if g["reach_fault"] or (isinstance(val.cause, SExc) and str(val.cause.origin).startswith(("fault-before:exists", "line"))) \
                     or "missing" in str(val.origin):
                 h.ensure("ABORT-REACH:failure-while-computing-reachability=>nothing-deleted-or-swept",
-                         len(calls) == 0 and g["prot_calls"] == 0 and len(st.deleted) == 0)
+                         len(calls) == 0 and g["sweep_calls"] == 0 and len(st.deleted) == 0)
+            if g["prot_fault"]:
+                h.ensure("ABORT-REACH:unobservable-markers=>nothing-deleted-or-swept",
+                         len(calls) == 0 and g["sweep_calls"] == 0 and len(st.deleted) == 0)
             if not str(val.origin).startswith("fault:refresh"):
                 h.ensure("ABORT:collect-raises-GarbageCollectionAborted", val.cls == "GarbageCollectionAborted", detail=repr(val))
             h.cover("ABORT-REACH:reachable") if g["reach_fault"] else None
             return
         h.ensure("ABORT-REACH:a-reachability-read-failure-never-returns-normally", not g["reach_fault"])
         if not calls:
-            h.ensure("collect:no-metadata=>nothing-touched", g["prot_calls"] == 0 and len(st.deleted) == 0)
+            h.ensure("collect:no-metadata=>nothing-touched", g["sweep_calls"] == 0 and len(st.deleted) == 0)
             return
-        h.ensure("REACH-ALL:protection-loaded-once-before-deleting", g["prot_calls"] == 1)
+        h.ensure("REACH-ALL:protection-loaded-once-before-deleting", g["prot_calls"] == 1 and g["sweep_calls"] <= 1)
+        # GC-RG (C06): the marker observation that feeds the protection set happens no later than the (last) metadata read that
+        # feeds reachability - a commit whose markers are already gone is then guaranteed to be in the metadata read
+        order = g["order"]
+        h.ensure("GC-RG:markers-observed-no-later-than-the-metadata-read",
+                 "markers" in order and "refresh" in order and order.index("markers") < max(i for i, x in enumerate(order) if x == "refresh"))
+        if g["sweep_calls"]:
+            h.ensure("GC-RG:sweep-only-what-the-observation-found-abandoned", bool(g.get("sweep_arg_ok")))
         h.ensure("REACH-ALL:two-prefixes(data,manifests)", len(calls) == 2 and calls[0][0] == "data" and calls[1][0] == "metadata/manifests")
         if len(calls) != 2 or not all(isinstance(cl[1], SSetZ) for cl in calls):
             h.fail("REACH-ALL:reachable-sets-passed-as-sets")
@@ -775,6 +865,9 @@ def h_collect(faults: bool):
                  z3.Implies(z3.And(in_snap, in_ml), z3.IsMember(NORM(mp_w), S2.z)))
         h.ensure("PROTECT:in-flight-files-protected-under-data", z3.IsSubset(g["prot"], S1.z))
         h.ensure("PROTECT:in-flight-files-protected-under-manifests", z3.IsSubset(g["prot"], S2.z))
+        if g["still"] is not None:
+            h.ensure("PROTECT:files-of-unremovable-markers-protected-under-data", z3.IsSubset(g["still"], S1.z))
+            h.ensure("PROTECT:files-of-unremovable-markers-protected-under-manifests", z3.IsSubset(g["still"], S2.z))
     return harness
 
 
